@@ -2,7 +2,9 @@
 //! on the simulated fork-join executor (C06, C07, C09).
 use crate::chooser::{Chooser, mix};
 use crate::common::*;
-use crate::gen_::{Dual, ShapeGen, eval_dual, gen_csg};
+use crate::gen_::{
+    Dual, ShapeGen, eval_dual, eval_f32, gen_csg, gen_func_with, regular_point,
+};
 use crate::rt::{self, CancelPlan, Shared};
 use fidget_core::{
     Context,
@@ -45,6 +47,8 @@ pub struct Work {
     pub page: Option<usize>,
     /// one of the bundled models instead of the generated shape
     pub model: Option<&'static str>,
+    /// the shape is a random expression (may be discontinuous)
+    pub random_expr: bool,
 }
 
 impl Work {
@@ -182,7 +186,22 @@ pub fn gen_work(ch: &mut Chooser, kind: Kind, tier: Tier) -> Work {
         Kind::D2 => (if ch.flag("d2_solid") { 3 } else { 2 }, 2),
         _ => (3, 2),
     };
-    let sg = gen_csg(ch, dims, max_vars);
+    let mut sg = gen_csg(ch, dims, max_vars);
+    // a share of the workloads renders a random expression instead of a CSG
+    // shape ("random expressions" in the properties' quantifiers)
+    // (not for meshing: the mesher's edge search assumes a sign change
+    // along every edge whose corners differ in sign and panics on NaN-valued
+    // or discontinuous fields; C08 restricts meshing to CSG of primitives)
+    let random_expr = kind != Kind::Mesh && ch.odds("random_expr", 1, 7);
+    if random_expr {
+        let fg = gen_func_with(ch, 24, 0);
+        sg = ShapeGen {
+            root: fg.outputs[0],
+            dag: fg.dag,
+            nvars: 0,
+            var_values: vec![],
+        };
+    }
     let big = tier == Tier::Thorough;
     let (w, h, d, tiles, depth) = match kind {
         Kind::D2 => {
@@ -245,7 +264,8 @@ pub fn gen_work(ch: &mut Chooser, kind: Kind, tier: Tier) -> Work {
         pixel_perfect,
         z,
         depth,
-        model: if ch.odds("bundled_model", 1, 14) {
+        random_expr,
+        model: if !random_expr && ch.odds("bundled_model", 1, 14) {
             Some(match kind {
                 Kind::D2 => *ch.pick(
                     "model_2d",
@@ -594,15 +614,43 @@ pub fn run_c06(st: &Shared, tier: Tier) -> RunReport {
 
     // brute-force reference, once per workload
     let cfg_mat = work.m3 * ImageSize::new(work.w, work.h).screen_to_world();
+    // For discontinuous random expressions a last-bit difference in the
+    // sample position can flip the value, so those workloads use the same
+    // embedding of the 3x3 matrix into 4x4 as the renderer documents (Z row
+    // and column of the identity); CSG workloads keep the independent 3x3
+    // reference, which is what catches a wrong embedding.
+    let embed = {
+        let m = cfg_mat.insert_row(2, 0.0);
+        let mut m = m.insert_column(2, 0.0);
+        m[(2, 2)] = 1.0;
+        m
+    };
     let mut reference = Vec::with_capacity((work.w * work.h) as usize);
     let mut vars = b.var_map.clone();
+    let reach = work.sg.dag.reachable(&[work.sg.root]);
     for j in 0..work.h {
         for i in 0..work.w {
-            let p = cfg_mat.transform_point(&Point2::new(i as f32, j as f32));
+            let p = if work.random_expr {
+                let q = embed.transform_point(&Point3::new(
+                    i as f32, j as f32, work.z,
+                ));
+                Point2::new(q.x, q.y)
+            } else {
+                cfg_mat.transform_point(&Point2::new(i as f32, j as f32))
+            };
             vars.insert(Var::X, p.x);
             vars.insert(Var::Y, p.y);
             vars.insert(Var::Z, work.z);
-            reference.push(b.ctx.eval(b.root, &vars).unwrap());
+            let mut v = b.ctx.eval(b.root, &vars).unwrap();
+            if work.random_expr {
+                // irregular points (DESIGN 11.3) are outside the claim: mark
+                // them like NaN reference values, which are skipped
+                let vals = eval_f32(&work.sg.dag, p.x, p.y, work.z, &[]);
+                if !regular_point(&work.sg.dag, &reach, &vals) {
+                    v = f32::NAN;
+                }
+            }
+            reference.push(v);
         }
     }
 
@@ -656,7 +704,7 @@ pub fn run_c06(st: &Shared, tier: Tier) -> RunReport {
                     break;
                 }
                 let got = f32::from_bits(*px as u32);
-                if !((got - v).abs() <= tau(*v)) {
+                if !(got == *v || (got - v).abs() <= tau(*v)) {
                     rep.violate(
                         "C06",
                         "pixel_perfect_value",
@@ -749,11 +797,18 @@ pub fn run_c07(st: &Shared, tier: Tier) -> RunReport {
     // upper face of the topmost root tile
     let top = d.div_ceil(root) * root;
     let mut vars = b.var_map.clone();
+    let reach = work.sg.dag.reachable(&[work.sg.root]);
     let mut value = |i: usize, j: usize, k: usize| -> f32 {
         let p = mat.transform_point(&Point3::new(i as f32, j as f32, k as f32));
         vars.insert(Var::X, p.x);
         vars.insert(Var::Y, p.y);
         vars.insert(Var::Z, p.z);
+        if work.random_expr {
+            let vals = eval_f32(&work.sg.dag, p.x, p.y, p.z, &[]);
+            if !regular_point(&work.sg.dag, &reach, &vals) {
+                return f32::NAN;
+            }
+        }
         b.ctx.eval(b.root, &vars).unwrap()
     };
     // per column: expected depth, deciding margin, excluded flag
